@@ -293,7 +293,7 @@ func TestC12_NamespaceChain(t *testing.T) {
 		"socket is not listed, in no room, Connected()==false; all accept => connect once, listed, own room, connection handler once, reachable; reject => connect_error carrying exactly that rejection, "+
 		"no connect, no handler, nothing listed or in a room; non-trivial = chain >= 2 with a rejection at index >= 1, or a broadcast issued while a socket was in the chain")
 	rapidGuard(t, "C12", c12CheckNsp)
-	runRapid(t, c12CheckNsp, tierN(3000, 80000), func(t *rapid.T) {
+	runRapid(t, c12CheckNsp, tierN(9000, 100000), func(t *rapid.T) {
 		c := c12NspCase{Namespace: rapid.SampledFrom([]string{"/", "/adm"}).Draw(t, "nsp"), Transport: rapid.SampledFrom([]string{"polling", "websocket"}).Draw(t, "transport"),
 			Clients: rapid.IntRange(1, 4).Draw(t, "clients"), Recovery: rapid.IntRange(0, 2).Draw(t, "recovery") == 0}
 		c.ClaimSession = c.Recovery && rapid.Bool().Draw(t, "claim")
@@ -514,7 +514,7 @@ func TestC12_EventChain(t *testing.T) {
 		"rejected => no handler runs and the error handlers fire (once per event or per handler); accepted => every On handler once per event, the Once handler once (ack returns); "+
 		"non-trivial = a chain >= 1 on an event whose first argument is not a string")
 	rapidGuard(t, "C12", c12CheckEvent)
-	runRapid(t, c12CheckEvent, tierN(2000, 40000), func(t *rapid.T) {
+	runRapid(t, c12CheckEvent, tierN(8000, 60000), func(t *rapid.T) {
 		c := c12EventCase{Transport: rapid.SampledFrom([]string{"polling", "websocket"}).Draw(t, "transport"), Variadic: rapid.Bool().Draw(t, "variadic"),
 			Signature: rapid.SampledFrom([]string{"string-first", "int-first", "none", "string-ack", "binary"}).Draw(t, "signature"), Events: rapid.IntRange(1, 4).Draw(t, "events"), Handlers: rapid.SampledFrom([]int{1, 1, 2, 3}).Draw(t, "handlers")}
 		for i, n := 0, rapid.IntRange(0, 3).Draw(t, "chain"); i < n; i++ {
